@@ -230,8 +230,18 @@ def run(case):
                 fail('per-state-rdf', f'state/symbol {k}: {None if va is None else va.tolist()} vs {None if vb is None else vb.tolist()}')
         flags.add('rdf-compared')
     # metrics
-    for key in (('density',) if tie else ('tracer', 'vib', 'density')):
-        if abs(a[key] - b[key]) > 1e-9 * max(abs(a[key]), abs(b[key]), 1e-300) + (1e-12 if key == 'vib' else 0):
+    # real-valued metrics: relative 1e-9 plus an absolute round-off allowance tied to the natural scale of the quantity
+    # (a diffusivity or an amplitude spread that is pure round-off is legal)
+    edge2 = float(np.sum(A['matrix'] ** 2, axis=1).max())
+    scale = {'tracer': edge2 * 1e-20 / (6 * T * A['dt']), 'vib': math.sqrt(edge2), 'density': 0.0}
+    # the vibration amplitude splits the speed signal at its sign changes: with a (near-)zero speed the split, and hence the
+    # value, is decided by round-off, so it is only compared when every speed is clearly non-zero
+    sp = np.diff(a['dist'], axis=1, prepend=0.0)
+    vib_ok = not tie and not bool(np.any(np.abs(sp) < 1e-9 * math.sqrt(edge2)))
+    if not vib_ok:
+        flags.add('vibration-amplitude-skipped-zero-speed')
+    for key in (('density',) if tie else (('tracer', 'vib', 'density') if vib_ok else ('tracer', 'density'))):
+        if abs(a[key] - b[key]) > 1e-9 * max(abs(a[key]), abs(b[key])) + 1e-9 * scale[key]:
             fail('metric-' + key, f'{a[key]!r} vs {b[key]!r}')
     dexp = np.empty_like(a['dist'])
     for old, new in enumerate(amap):
@@ -239,14 +249,17 @@ def run(case):
     if not tie and np.abs(dexp - b['dist']).max() > 1e-9 * max(1.0, np.abs(dexp).max()):
         fail('distances')
     # grids
-    if a['volume'].shape != b['volume'].shape:
-        fail('volume-shape', f'{a["volume"].shape} vs {b["volume"].shape}')
     if a['volume'].sum() != b['volume'].sum():
         fail('volume-sum')
     li = [i for i, s in enumerate(A['symbols']) if s == 'Li']
     liB = [i for i, s in enumerate(B['symbols']) if s == 'Li']
     vdims = a['volume'].shape
-    if kind != 'translate':
+    ratio = L / case['resolution']
+    if bool(np.any(np.abs(ratio - np.round(ratio)) < 1e-9)):
+        flags.add('grid-skipped-ambiguous-size')  # floor(L/res) is decided by round-off in L (C08 assumption)
+    elif a['volume'].shape != b['volume'].shape:
+        fail('volume-shape', f'{a["volume"].shape} vs {b["volume"].shape}')
+    elif kind != 'translate':
         if near_voxel_edge(A['coords'][:, li], vdims) or near_voxel_edge(B['coords'][:, liB], vdims):
             flags.add('grid-skipped-sample-on-voxel-edge')
         else:
